@@ -13,8 +13,23 @@ import (
 
 var alg = &Algorithm{}
 
+// New returns RSAES-PKCS1-v1_5 key encryption algorithm.
+//
+// New doesn't accept weak keys less than 2048 bit.
+// If you want to use weak keys, use NewWeak instead.
 func New() keymanage.Algorithm {
 	return alg
+}
+
+var algw = &Algorithm{
+	weak: true,
+}
+
+// NewWeak is same as New, but it accepts the weak keys.
+//
+// Deprecated: Use New instead.
+func NewWeak() keymanage.Algorithm {
+	return algw
 }
 
 func init() {
@@ -23,7 +38,13 @@ func init() {
 
 var _ keymanage.Algorithm = (*Algorithm)(nil)
 
-type Algorithm struct{}
+// Algorithm is RSAES-PKCS1-v1_5.
+//
+// By default, using weak keys less 2048 bits fails.
+// If you want to use weak keys, use NewWeak instead of New.
+type Algorithm struct {
+	weak bool
+}
 
 // NewKeyWrapper implements [github.com/shogo82148/goat/keymanage.Algorithm].
 func (alg *Algorithm) NewKeyWrapper(key keymanage.Key) keymanage.KeyWrapper {
@@ -37,6 +58,19 @@ func (alg *Algorithm) NewKeyWrapper(key keymanage.Key) keymanage.KeyWrapper {
 	pub, ok := publicKey.(*rsa.PublicKey)
 	if !ok && publicKey != nil {
 		return keymanage.NewInvalidKeyWrapper(fmt.Errorf("rsapkcs1v15: invalid public key type: %T", publicKey))
+	}
+
+	// RFC 7518 Section 4.2: A key of size 2048 bits or larger MUST be used.
+	if !alg.weak {
+		var size int
+		if priv != nil {
+			size = priv.N.BitLen()
+		} else if pub != nil {
+			size = pub.N.BitLen()
+		}
+		if size < 2048 {
+			return keymanage.NewInvalidKeyWrapper(fmt.Errorf("rsapkcs1v15: weak key bit length: %d", size))
+		}
 	}
 
 	if priv != nil {
